@@ -5,6 +5,7 @@ CONSTANTS
   MaxLog = 4
   NonCmdKinds = {"C"}
   WarmStart = TRUE
+  MaxRestarts = 0
   UpgradeStrong = TRUE
   VerifyQuorum = TRUE
   RecheckTerm = TRUE
